@@ -1,6 +1,6 @@
 """C14 - target files decode to exactly the targets they describe, independently (spec/targets)."""
 import json, os
-from . import core
+from . import core, acmd
 from .main import report_rejections
 
 
@@ -39,4 +39,6 @@ def run(ctx):
     })
     ctx.assumptions += ["well-formedness is the reference grammar of TargetsContract (README examples): blocks with headers are ended by a blank line or EOF",
                         "body files live in a scratch directory; their content names them"]
+    # the command-line anchor of this property: the attack command end to end against a loopback server (spec/cli/AttackCmd.tla)
+    acmd.run_part(ctx, vh)
     return "model_checking"
